@@ -22,7 +22,8 @@ fn load(text: &str, l: &Layout, case_tag: u64) -> Result<v1::Instance, String> {
             // through a real file
             let dir = std::path::Path::new("/verif/target/tmp");
             let _ = std::fs::create_dir_all(dir);
-            let p = dir.join(format!("c17-{}-{:x}.mps.gz", std::process::id(), case_tag));
+            static N: std::sync::atomic::AtomicU64 = std::sync::atomic::AtomicU64::new(0);
+            let p = dir.join(format!("c17-{}-{}.mps.gz", std::process::id(), N.fetch_add(1, std::sync::atomic::Ordering::SeqCst)));
             std::fs::write(&p, &bytes).map_err(|e| format!("io: {e}"))?;
             let r = ommx::mps::load_file(&p).map_err(|e| format!("{e}"));
             let _ = std::fs::remove_file(&p);
@@ -242,8 +243,8 @@ impl Property for C17 {
     }
     fn cases(&self, tier: Tier) -> usize {
         match tier {
-            Tier::Quick => 30_000,
-            Tier::Thorough => 1_000_000,
+            Tier::Quick => 150_000,
+            Tier::Thorough => 3_000_000,
         }
     }
     fn tape_max(&self) -> usize {
